@@ -53,6 +53,8 @@ if what in ('mutants', 'all'):
 BENIGN = {      # behaviour-preserving refactorings: the checks most exposed to each must stay silent (exit 0); 'benign-all' runs every check
     'b01_bump_pointer_loop': ['C06', 'C03'], 'b02_utf8_equivalent_tests': ['C10', 'C14', 'C06'], 'b03_coverage_local_refs': ['C08'], 'b04_fold_one_swapped_branches': ['C12'],
     'b05_utf8_append_two_pushes': ['C17'], 'b06_forwarder_with_assert': ['C06', 'C03'], 'b07_raw_close_loop_reindexed': ['C16', 'C03', 'C02'], 'b08_begin_of_line_rearranged': ['C19'],
+    'b11_parse_tree_parse_local_bool': ['C12'], 'b12_match_early_return': ['C08', 'C04', 'C01', 'C02'], 'b13_unescape_j_extra_local': ['C17'], 'b14_rep_countdown_loop': ['C09', 'C02', 'C11', 'C04'],
+    'b15_limit_depth_renamed_guard': ['C18', 'C13'], 'b16_seq_explicit_if': ['C01', 'C02', 'C04', 'C13'],
     'b09_string_early_returns': ['C09', 'C06', 'C03', 'C02'], 'b10_eol_reordered_conjuncts': ['C06', 'C09', 'C07', 'C03'],
 }
 if what in ('benign', 'benign-all', 'all'):
